@@ -452,6 +452,36 @@ func init() {
 				default:
 				}
 			}
+			// (g) two placeholders whose expressions differ only in how they are grouped are two placeholders
+			if i%40 == 3 {
+				av, bv, cv := &ref.DataRef{Name: "a"}, &ref.DataRef{Name: "b"}, &ref.DataRef{Name: "c"}
+				one := &ref.Lit{V: ref.Int(1)}
+				bin := func(op string, l, r ref.Expr) ref.Expr { return &ref.Binary{Op: op, L: l, R: r} }
+				pairs := [][2]ref.Expr{
+					{bin("or", av, bin("or", bv, cv)), bin("or", bin("or", av, bv), cv)},
+					{bin("and", av, bin("and", bv, cv)), bin("and", bin("and", av, bv), cv)},
+					{bin("-", av, bin("-", bv, one)), bin("-", bin("-", av, bv), one)},
+					{bin("*", av, bin("+", bv, one)), bin("+", bin("*", av, bv), one)},
+					{bin("+", av, bin("+", bv, cv)), bin("+", bin("+", av, bv), cv)},
+					{bin("?:", av, bin("?:", bv, cv)), bin("?:", bin("?:", av, bv), cv)},
+					{&ref.Unary{Op: "-", X: bin("+", av, one)}, bin("+", &ref.Unary{Op: "-", X: av}, one)},
+					{&ref.Unary{Op: "not", X: bin("and", av, bv)}, bin("and", &ref.Unary{Op: "not", X: av}, bv)},
+				}
+				pq := pairs[(i/40)%len(pairs)]
+				mk := func(x, y ref.Expr) *ref.Msg {
+					return &ref.Msg{Desc: "d", Body: []ref.Node{&ref.Raw{Text: "first "}, &ref.Print{E: x}, &ref.Raw{Text: " second "}, &ref.Print{E: y}}}
+				}
+				two, err1 := c10Compile(c10File([]*ref.Msg{mk(pq[0], pq[1])}, 0))
+				same, err2 := c10Compile(c10File([]*ref.Msg{mk(pq[0], pq[0])}, 0))
+				if err1 != nil || err2 != nil || len(two) != 1 || len(same) != 1 {
+					return fw.Result{Verdict: fw.Inconclusive, Key: "variant-does-not-compile", Msg: fmt.Sprint(err1, err2), Case: c10File([]*ref.Msg{mk(pq[0], pq[1])}, 0)}
+				}
+				ctx.Obs("regrouped_placeholder_pairs", 1)
+				if two[0].id == same[0].id || two[0].phstr == same[0].phstr {
+					return fw.Result{Verdict: fw.Violated, Key: "regrouped-expressions-taken-for-one-placeholder", Case: c10File([]*ref.Msg{mk(pq[0], pq[1])}, 0),
+						Msg: fmt.Sprintf("a message printing %s and %s got placeholders %q and id %d, the same as the message printing the first expression twice", ref.Src(pq[0], ref.PrintStyle{}), ref.Src(pq[1], ref.PrintStyle{}), two[0].phstr, two[0].id)}
+				}
+			}
 			// (d) the official algorithm
 			if !info.Ambiguous {
 				ctx.Obs("official_algorithm_compared", 1)
